@@ -5,10 +5,11 @@ temporary directory outside /repo and /verif, removed afterwards) and the same c
 copy.  A mutant is *detected* when the check reports a failing instance whose key was not failing
 on the unmodified tree (or when it can no longer analyse: counted separately).  An unedited twin
 copy must produce no new key.  Misses are printed as SELFTEST-MISS and recorded in the evidence;
-they never change the verdict about /repo.  Seven behaviour-preserving twins (unedited, re-printed
+they never change the verdict about /repo.  Ten behaviour-preserving twins (unedited, re-printed
 with ast.unparse, locals renamed, arms of every two-armed `if` swapped, a debug log call added to
 every function and with-block, every function / loop body wrapped in try-except-reraise, every
-returned expression bound to a temporary first) must each give exactly the verdict of the original tree.
+returned expression bound to a temporary first, else-after-return introduced, component receivers
+bound to locals, plain local assignments annotated) must each give exactly the verdict of the original tree.
 """
 
 from __future__ import annotations
@@ -24,6 +25,8 @@ from .loader import AnalysisError, Repo
 from .report import Context
 
 COPY = ("pynenc", "pynmon")
+TWIN_MODES = ("flip", "log", "try", "retvar", "elseret", "recv", "annot")
+TWINS = ("twin-unedited", "twin-unparse", "twin-rename") + tuple(f"twin-{m}" for m in TWIN_MODES)
 DOCS = ("docs/_static/invocation_state_machine.svg", "docs/usage_guide/invocation_status.md")
 
 
@@ -58,7 +61,7 @@ def _run_one(args) -> dict:
         if name.startswith("twin-") and name != "twin-unedited":
             from .twin import rewrite_tree
 
-            rewrite_tree(tmp, rename=(name == "twin-rename"), mode={"twin-flip": "flip", "twin-log": "log", "twin-try": "try", "twin-retvar": "retvar"}.get(name, ""))
+            rewrite_tree(tmp, rename=(name == "twin-rename"), mode=name[5:] if name[5:] in TWIN_MODES else "")
             keys, err = _failing_keys(prop, tmp, tier)
             new = sorted(keys - set(baseline))
             gone = sorted(set(baseline) - keys)
@@ -107,13 +110,7 @@ def run_selftest(ctx: Context, mod) -> None:
 
     muts = MUTANTS.get(ctx.prop, [])
     baseline = sorted({i.key for i in ctx.instances if not i.ok})
-    jobs = [(ctx.prop, str(ctx.repo.root), "twin-unedited", [], baseline, ctx.tier),
-            (ctx.prop, str(ctx.repo.root), "twin-unparse", [], baseline, ctx.tier),
-            (ctx.prop, str(ctx.repo.root), "twin-rename", [], baseline, ctx.tier),
-            (ctx.prop, str(ctx.repo.root), "twin-flip", [], baseline, ctx.tier),
-            (ctx.prop, str(ctx.repo.root), "twin-log", [], baseline, ctx.tier),
-            (ctx.prop, str(ctx.repo.root), "twin-try", [], baseline, ctx.tier),
-            (ctx.prop, str(ctx.repo.root), "twin-retvar", [], baseline, ctx.tier)]
+    jobs = [(ctx.prop, str(ctx.repo.root), tw, [], baseline, ctx.tier) for tw in TWINS]
     for name, edits in muts:
         jobs.append((ctx.prop, str(ctx.repo.root), name, edits, baseline, ctx.tier))
     # seeded changes (independent agents, confirmed by a demonstration): those recorded as caught by this property
@@ -133,8 +130,8 @@ def run_selftest(ctx: Context, mod) -> None:
     workers = min(16, max(1, len(jobs)))
     with ProcessPoolExecutor(max_workers=workers) as ex:
         results = list(ex.map(_run_one, jobs))
-    twins = results[:7]
-    results = [results[0]] + results[7:]
+    twins = results[: len(TWINS)]
+    results = [results[0]] + results[len(TWINS):]
     twin = results[0]
     twin_ok = all(t["status"] == "missed" for t in twins)  # no key changes on unedited / re-printed / renamed copies
     for t in twins:
